@@ -124,6 +124,12 @@ func checkFullWith(c *Case, prop string, compute func(n *hx.Node, fd *hx.Field, 
 			add("enum-leak", "KF-C05-enum-undeclared", "undeclared enum value %q leaked into the response at %s without an error%s", info.Value, p, ctx())
 		}
 	}
+	for _, e := range exp.Errors {
+		if e.Kind == "nthval" {
+			av, _ := lookup(act, e.Path)
+			add("list-accessor-value-with-error", "KF-C05-list-accessor-value-with-error", "the root resolver's Nth returned a member together with an error; the response holds %s at %s%s", hx.Show(av), hx.PathString(e.Path), ctx())
+		}
+	}
 	if d := diffSkipping(exp.Data, act, "data", leaked); d != "" {
 		add("data", "", "%s%s", d, ctx())
 	}
